@@ -46,8 +46,16 @@ func VPH_C03_create_existing() {
 		fs.addLink("/d/x", "t")
 		vpReach("symlink")
 	}
-	env := vpServer(fs, ExportOptions{CacheNegativeLookups: vpBool("negcache")})
+	negcache := vpBool("negcache")
+	env := vpServer(fs, ExportOptions{CacheNegativeLookups: negcache})
 	hd := env.handleFor("/d")
+	// The object may have appeared behind the server's back after a LOOKUP miss was cached (another
+	// export of the same backend, a local process): the decision "does the name exist" is the
+	// backend's, atomically with the creation, never the cache's.
+	if negcache && kind != 0 && vpBool("stale-negative-entry") {
+		env.nfs.attrCache.PutNegative("/d/x")
+		vpReach("stale-negative-entry")
+	}
 	env.auth.EffectiveUID, env.auth.EffectiveGID = vpU32("euid"), vpU32("egid")
 	g := &vpGen{}
 	how := uint32(vpChoose("how", 0, 2))
